@@ -94,7 +94,7 @@ impl Driver for C06 {
         "C06"
     }
     fn units(&self, tier: Tier) -> usize {
-        tier.pick(640, 9600)
+        tier.pick(3200, 32000)
     }
     fn run_unit(&self, ctx: &Ctx, out: &mut UnitOut, _start: usize, only: Option<usize>) {
         let mut rng = unit_rng(ctx, "C06", out.unit);
@@ -168,7 +168,7 @@ impl Driver for C06 {
         "random data-driven programs from 12 construct families (ranges with index arithmetic; enumerate+len; nested dependent iteration with two-index names incl. x_1_23 vs x_12_3; nested arrays with row iteration and M[i][j]; zip; union/intersection/difference; graphs with nodes/edges/neigh_edges/neigh_edges_of, weights and _ patterns; all/any/xor aggregations; explicit blocks mixed with scoped ones and prod; computed constraint and variable names; inclusive/exclusive/empty/reversed ranges with for-quantified declarations) over random data (arrays of 0..3 numbers, 1-2 row matrices, 2-4 node graphs); the harness's own unroller (its own ranges, enumerate, zip, len, set functions, graph iterators, tuple destructuring, name flattening) writes the twin text; both texts go through the real parser, transformer and linearizer and must give the same constraint names in the same order, the same variable list and domains, objective and the same rows in order (coefficients and right-hand sides to 1e-9); empty avg/min/max aggregations must be rejected. non-trivial = agreeing pair with at least two rows/variables".into()
     }
     fn thresholds(&self, tier: Tier) -> Thresholds {
-        let s = tier.pick(1, 15);
+        let s = tier.pick(4, 40);
         Thresholds {
             min_tags: vec![
                 ("agree", 20000 * s),
